@@ -170,3 +170,19 @@ Theorem C06_guarded_addresses_origin : forall role lat locs ops,
   (forall c, In c (a_remotes s) -> In (c_addr c) (trusted authenticated ops)) /\
   (forall p, a_selected s = Some p -> In (c_addr (p_remote p)) (trusted authenticated ops)).
 Proof. exact addresses_origin_guarded. Qed.
+
+(* ---------------------------------------------------------------- shared-UDP mux socket kind *)
+
+(* the demux (shared_udp.rs) is a filter in front of the same handler: a history seen through it
+   is the history of the plain agent on the operations it lets through, so every history
+   theorem above applies to `mux_kept m ops` *)
+Theorem C06_mux_history : forall ops m s, snd (mux_run (m, s) ops) = run s (mux_kept m ops).
+Proof. exact mux_history. Qed.
+
+(* what it adds: a datagram from a source it has not recorded reaches (changes) the agent only if
+   it is a Binding request whose USERNAME names this session's ufrag -- no password needed *)
+Theorem C06_mux_stranger_needs_ufrag : forall m s la src k,
+  mux_get m src = None ->
+  snd (fst (mux_step (m, s) (Pkt la src k))) <> s ->
+  mux_extracts k = true /\ k_ufrag k = 1 /\ classify k = CReq.
+Proof. exact mux_stranger_needs_ufrag. Qed.
